@@ -107,7 +107,7 @@ def lw7(prog, rr):
 
 
 # --------------------------------------------------------------------------------------- RN5
-@rule("RN5", ["C03"], "mutable rangelists are shared by reference with the constraint model; edits mutate that very object in place", engine="DF", floor=4)
+@rule("RN5", ["C03", "C01"], "mutable rangelists are shared by reference with the constraint model; edits mutate that very object in place", engine="DF", floor=4)
 def rn5(prog, rr):
     rl = prog.cls("rangelist", "vsc.types")
     init = rl.methods["__init__"]
@@ -254,7 +254,7 @@ def cv4(prog, rr):
                 return [(FALL, st._replace(u=True), None)]
             return [(FALL, st, None)]
     fake = ast.FunctionDef(name="body", args=f.node.args, body=lp.body, decorator_list=[], lineno=lp.lineno, col_offset=0)
-    outs = Interp(D(), func=f).run(fake)
+    outs = Interp(D(), func=f).run(fake, loop_body=True)
     for s in outs.fall:
         if not s.u:
             rr.finding(f, lp, "covergroup.sample", "CV4: for some kind of field the argument is not copied (the coverpoint then samples the previous value)",
